@@ -96,6 +96,143 @@ def tus(tier, seed, section=None):
                 body += '  sbin<%d, %s, %d, %d, %s, %d>(rng);\n' % (dl, ECT[nl], el, dr, ECT[nr], er)
             body += '}\n'
             res.append(dict(name='%s_elastic_%d' % (section, i // 3), src=body, compiler='g++'))
+    if section == 'C01':
+        # ---- C01w (harness/props/C01w.h, driver table C01w): wrapped representations --------------------------------
+        res += c01w_tus(tier, seed)
+    return res
+
+
+# ======================================================================================================================
+# C01w: + - * and unary minus of scaled_integer over overflow_integer<built-in> (every tag), over
+# overflow_integer<elastic_integer>, and over elastic_integer combined with built-in integers (C01 only)
+# ======================================================================================================================
+W_TAGS = {'nat': 'cnl::native_overflow_tag', 'sat': 'cnl::saturated_overflow_tag', 'thr': 'cnl::_impl::throwing_overflow_tag',
+          'trp': 'cnl::trapping_overflow_tag', 'und': 'cnl::undefined_overflow_tag'}
+W_TAGL = ['sat', 'thr', 'trp', 'und', 'nat']
+
+
+def _w_digits(t):
+    bits = max(int(t[1:]), 32)      # digits of the promoted type
+    return bits - 1 if (t[0] == 'i' or int(t[1:]) < 32) else bits
+
+
+def _w_ok(a, e1, b, e2, rx):
+    # the operand with the larger exponent is multiplied by radix^d, a constant of its promoted type
+    d = abs(e1 - e2)
+    hi = a if e1 > e2 else b
+    return d == 0 or (d < _w_digits(hi) if rx == 2 else rx ** d < 2 ** _w_digits(hi) // rx)
+
+
+def c01w_overflow_grid(tier, seed):
+    """(tag, rep, exponent, rep, exponent, radix): every tag with a signed pair, an unsigned pair and a pair of mixed signedness;
+    the widths rotate with the seed"""
+    sp = [('i8', 'i8'), ('i16', 'i32'), ('i32', 'i32'), ('i64', 'i32'), ('i8', 'i64'), ('i16', 'i16'), ('i32', 'i64'), ('i64', 'i64')]
+    up = [('u8', 'u8'), ('u16', 'u8'), ('u32', 'u32'), ('u64', 'u32'), ('u8', 'u32'), ('u16', 'u16'), ('u32', 'u64'), ('u64', 'u64')]
+    mp = [('u8', 'i16'), ('i32', 'u16'), ('u32', 'i32'), ('i64', 'u32'), ('u16', 'i8'), ('i8', 'u8'), ('u64', 'i64'), ('i16', 'u32')]
+    ex = [(-4, -4, 2), (-8, -3, 2), (0, 5, 2), (-2, 1, 10), (3, -2, 2), (-20, -16, 2), (-1, -1, 10), (-1, 0, 2)]
+    out = []
+    for i, tg in enumerate(W_TAGL):
+        for j, pool in enumerate((sp, up, mp)):
+            a, b = pool[(i + seed + 3 * j) % 8]
+            e1, e2, rx = ex[(i + 2 * j + seed) % 8]
+            if not _w_ok(a, e1, b, e2, rx):
+                e1, e2, rx = -4, -3, 2
+            out.append((tg, a, e1, b, e2, rx))
+    # fixed corners: 8/16-bit unsigned representations under a checking tag (the operators promote to int)
+    out += [('sat', 'u8', -4, 'u8', -4, 2), ('thr', 'u16', -1, 'u8', -3, 2), ('trp', 'u8', 0, 'u16', 0, 2)]
+    rnd = random.Random(seed * 6133 + 17)
+    n = len(out) + (3 if tier == 'quick' else 60)
+    while len(out) < n:
+        tg = rnd.choice(W_TAGL)
+        a, b = rnd.choice(list(ECT)), rnd.choice(list(ECT))
+        rx = rnd.choice([2, 2, 2, 10])
+        e1, e2 = (rnd.randint(-40, 20), 0) if rx == 2 else (rnd.randint(-4, 3), rnd.randint(-4, 3))
+        if rx == 2:
+            e2 = e1 + rnd.choice([0, 1, -1, 3, -5, 7, -12])
+        c = (tg, a, e1, b, e2, rx)
+        if c not in out and _w_ok(a, e1, b, e2, rx):
+            out.append(c)
+    return out
+
+
+def c01w_neg_grid(tier, seed):
+    """(tag, rep, exponent, radix): every tag x every 8..64-bit representation"""
+    out = []
+    for i, tg in enumerate(W_TAGL):
+        for j, t in enumerate(ECT):
+            e = [-4, 0, 3, -16, 1, -1, 40, -70][(i + j + seed) % 8]
+            out.append((tg, t, e, 10 if (i + j + seed) % 5 == 0 else 2))
+    return out
+
+
+def c01w_safe_grid(tier, seed):
+    """(tag, digits, narrowest, exponent, digits, narrowest, exponent): overflow_integer<elastic_integer<D, N>, tag>"""
+    out = [  # unsigned narrowest types on both sides, every tag (differences are signed and may be negative)
+        ('sat', 10, 'u32', -4, 10, 'u32', -4), ('thr', 10, 'u8', -4, 12, 'u32', -1), ('trp', 16, 'u16', 0, 16, 'u16', 3),
+        ('und', 24, 'u32', -8, 7, 'u8', -8), ('nat', 10, 'u32', -4, 10, 'u32', -1), ('sat', 40, 'u64', -20, 33, 'u32', -10),
+        ('trp', 32, 'u32', 0, 32, 'u32', 0), ('thr', 8, 'u8', 0, 8, 'u8', 0),
+        # signed and mixed narrowest types
+        ('sat', 15, 'i32', -4, 10, 'u32', -2), ('thr', 7, 'i8', 0, 20, 'i32', -5), ('trp', 31, 'i32', -10, 31, 'i32', -10),
+        ('und', 12, 'u16', 2, 12, 'i16', 2), ('nat', 8, 'i8', -3, 8, 'u8', 0), ('sat', 1, 'u8', 0, 5, 'u8', 1), ('trp', 1, 'i32', 0, 1, 'i32', 0)]
+    rnd = random.Random(seed * 2749 + 3)
+    n = len(out) + (3 if tier == 'quick' else 40)
+    while len(out) < n:
+        tg = rnd.choice(W_TAGL)
+        nl = rnd.choice(list(ECT))
+        nr = rnd.choice([t for t in ECT if t[0] == 'u']) if rnd.random() < 0.6 else rnd.choice(list(ECT))
+        dl, dr = rnd.choice([3, 8, 10, 16, 24, 31, 32, 40]), rnd.choice([3, 8, 10, 16, 24, 31, 32, 40])
+        el = rnd.randint(-20, 10)
+        er = el + rnd.choice([0, 0, 1, -3, 5, -8, 13])
+        c = (tg, dl, nl, el, dr, nr, er)
+        if c not in out and dl + dr + abs(el - er) <= 100:
+            out.append(c)
+    return out
+
+
+def c01w_mixed_grid(tier, seed):
+    """(digits, narrowest, exponent, built-in type): elastic_integer representation combined with a built-in integer"""
+    out = [  # unsigned narrowest, signed built-in, digits ABOVE max(width narrowest, digits built-in)
+        (40, 'u32', -8, 'i32'), (12, 'u8', 0, 'i8'), (24, 'u16', -2, 'i32'), (33, 'u32', 0, 'i16'), (40, 'u32', 5, 'i8'), (64, 'u64', -3, 'i32'),
+        (20, 'u16', 0, 'i16'), (48, 'u32', -20, 'i64'),
+        # ... and at or below it
+        (20, 'u32', -4, 'i32'), (6, 'u8', -1, 'i8'), (10, 'u16', 3, 'i16'), (32, 'u32', 0, 'i32'), (16, 'u16', 0, 'i32'),
+        # signed narrowest / unsigned built-in
+        (40, 'i32', -8, 'i32'), (12, 'i8', 0, 'u8'), (40, 'u32', -8, 'u32'), (16, 'u16', 0, 'u8'), (31, 'i32', 2, 'u64')]
+    rnd = random.Random(seed * 977 + 1)
+    n = len(out) + (3 if tier == 'quick' else 40)
+    while len(out) < n:
+        nl = rnd.choice([t for t in ECT if t[0] == 'u']) if rnd.random() < 0.7 else rnd.choice(list(ECT))
+        t = rnd.choice([t for t in ECT if t[0] == 'i']) if rnd.random() < 0.7 else rnd.choice(list(ECT))
+        d = rnd.choice([5, 9, 12, 17, 24, 31, 32, 33, 40, 48, 63, 64])
+        e = rnd.choice([0, 0, -1, -3, -8, -15, 2, 6, -25])
+        c = (d, nl, e, t)
+        # the built-in operand is multiplied by 2^-e in its promoted type (a constant that must fit)
+        if c not in out and -e < _w_digits(t) and d + abs(e) + 64 <= 126:
+            out.append(c)
+    return out
+
+
+def c01w_tus(tier, seed):
+    whdr = os.path.join(os.path.dirname(os.path.abspath(__file__)), 'C01w.h')
+    res = []
+
+    def emit(name, define, base, calls, per):
+        for i in range(0, len(calls), per):
+            body = '#define %s 1\n#include "%s"\nint main(){ install(); Rng rng(seed_from_env()+%d);\n' % (define, whdr, base + i)
+            body += ''.join('  %s(rng);\n' % c for c in calls[i:i + per]) + '}\n'
+            comp = 'clang++' if (tier == 'thorough' and (i // per) % 4 == 3) else 'g++'
+            # the model follows the intrinsic detection path (the default of GCC builds); Clang builds default to the portable
+            # predicates, whose treatment of operands of different signedness is the open class C06.portable_mixed_signedness
+            res.append(dict(name='C01w_%s_%d' % (name, i // per), src=body, compiler=comp, defines=['CNL_VERIF_OVERFLOW_PATH=1']))
+
+    emit('overflow', 'SEC_C01WO', 9000,
+         ['ogo<%s, %s, %d, %s, %d, %d>' % (W_TAGS[tg], ECT[a], e1, ECT[b], e2, rx) for (tg, a, e1, b, e2, rx) in c01w_overflow_grid(tier, seed)], 4)
+    emit('neg', 'SEC_C01WO', 9200,
+         ['oneg<%s, %s, %d, %d>' % (W_TAGS[tg], ECT[t], e, rx) for (tg, t, e, rx) in c01w_neg_grid(tier, seed)], 10)
+    emit('safe', 'SEC_C01WOE', 9400,
+         ['oego<%s, %d, %s, %d, %d, %s, %d>' % (W_TAGS[tg], dl, ECT[nl], el, dr, ECT[nr], er) for (tg, dl, nl, el, dr, nr, er) in c01w_safe_grid(tier, seed)], 3)
+    emit('mixed', 'SEC_C01WEB', 9600,
+         ['ebgo<%d, %s, %d, %s>' % (d, ECT[nl], e, ECT[t]) for (d, nl, e, t) in c01w_mixed_grid(tier, seed)], 4)
     return res
 
 
